@@ -47,6 +47,14 @@ def make_case(seed, shard_index, i, kind, opts=None):
         case["design"] = {k: v for k, v in design.items() if k != "pieces"}
         case["prefix"] = design["prefix"]
         labels = l_in | set(design["labels"])
+        if kind == "tag" and not design["target_mode"] and rng.random() < 0.25:
+            # (pieces keep their Pretext scaffold index 'pt' only for ordering inside one scaffold: re-derive it)
+            before = {id(sc): n for n, sc in enumerate(pt)}
+            if gtag.add_haplotig_slivers(rng, inp, pt, t):
+                remap = {before[id(sc)]: n for n, sc in enumerate(pt) if id(sc) in before}
+                for pc in design["pieces"]:
+                    pc["pt"] = remap[pc["pt"]]
+                labels.add("tag:haplotig-slivers")
     elif kind == "tag2":
         res = None
         while res is None:
@@ -60,7 +68,27 @@ def make_case(seed, shard_index, i, kind, opts=None):
         labels = set(design["labels"])
     else:
         raise ValueError(kind)
-    case["via_text"] = rng.random() < opts.get("via_text", 0.15)
+    if kind == "hostile" and rng.random() < 0.06 and len(case["input"]) >= 2:
+        # an odd input: a scaffold name that comes back in a second, separate block of rows
+        # (must end in an error or in outputs that still hold every contig)
+        src = rng.choice(case["input"])
+        frs = [r for r in src[1] if r[0] == "F"]
+        if len(frs) >= 2:
+            cut = rng.randint(1, len(src[1]) - 1)
+            head, tail = src[1][:cut], src[1][cut:]
+            while tail and tail[0][0] == "G":
+                tail = tail[1:]
+            while head and head[-1][0] == "G":
+                head = head[:-1]
+            if head and tail:
+                src[1][:] = head
+                case["input"].append([src[0], tail])
+                labels.add("in:scaffold-name-in-two-blocks")
+    case["via_text"] = rng.random() < opts.get("via_text", 0.15) and "in:scaffold-name-in-two-blocks" not in labels
+    if case["via_text"]:
+        case["via_text"] = rng.choice(["agp", "tpf"])
+        labels.add(f"in:via-{case['via_text']}-text")
+    # (through AGP text two adjacent blocks of one name would simply be read as one scaffold)
     case["labels"] = sorted(labels)
     return case
 
@@ -77,9 +105,17 @@ def build_inputs(case):
 
         pa = parse_agp(io.StringIO(gpv.pretext_agp_text(case["pretext"], t)), "p")
         # PretextView prints 6 decimals: cases are generated with t rounded to 6 decimals
-        tmp = io.StringIO()
-        format_agp(Assembly("in", scaffolds=build_scaffolds(case["input"])), tmp)
-        ia = IndexedAssembly.new_from_assembly(parse_agp(io.StringIO(tmp.getvalue()), "in"))
+        # the input assembly is written by the reference formatters (so that a parser defect is not
+        # cancelled by the matching formatter) as AGP or as TPF, the CLI's two text input formats
+        if case["via_text"] == "tpf":
+            from tola.assembly.parser import parse_tpf
+            from vf.ref import tpf_ref
+
+            ia = IndexedAssembly.new_from_assembly(parse_tpf(io.StringIO(tpf_ref.format({"header": [], "scaffolds": case["input"]})), "in"))
+        else:
+            from vf.ref import agp_ref
+
+            ia = IndexedAssembly.new_from_assembly(parse_agp(io.StringIO(agp_ref.format({"header": [], "scaffolds": case["input"]})), "in"))
     else:
         pa = Assembly("p", scaffolds=build_scaffolds(case["pretext"]), bp_per_texel=t)
         ia = IndexedAssembly("in", scaffolds=build_scaffolds(case["input"]))
